@@ -209,12 +209,16 @@ class SyncInterpreter(BaseInterpreter[TContext, TEvent]):
         self._is_processing = True
         try:
             self._enter_states([self.machine])
+            # 🔄 Settle immediate "always" transitions behind the same guard
+            #    and BEFORE raised events are handled, as the async engine
+            #    does. Unguarded, an entry action reached by an
+            #    always-transition that raised an event had it processed
+            #    re-entrantly, in the middle of that transition.
+            self._process_transient_transitions()
         finally:
             self._is_processing = False
         # 📬 Drain anything an entry action raised during that descent.
         self._process_event_queue()
-        # 🔄 Process any immediate "always" transitions upon startup.
-        self._process_transient_transitions()
 
         # Capture the post-transition state set after initialization
         post_states = set(self._active_state_nodes)
